@@ -213,23 +213,29 @@ class MG(da.Solver):
         # Restrict residual (and parameters in case of heterogeneities)
         r = self.restriction(r)
         if self.heterogeneous:
+            fine_level = (self.mass_coeff, self.diffusion_coeff, self.smoother)
             self.restrict_parameters()
 
         # Solve/smooth coarse problem or further V-cycle
-        if depth == 0:
-            eps = self.smoother(x0=np.zeros_like(r), rhs=r, h=2 * h)
-        else:
-            eps = self.base_V_Cycle(
-                x0=np.zeros_like(r), rhs=r, depth=depth - 1, h=2 * h
-            )
+        try:
+            if depth == 0:
+                eps = self.smoother(x0=np.zeros_like(r), rhs=r, h=2 * h)
+            else:
+                eps = self.base_V_Cycle(
+                    x0=np.zeros_like(r), rhs=r, depth=depth - 1, h=2 * h
+                )
+        finally:
+            # Return to the parameters of the current level. NOTE: Prolongating the
+            # restricted parameters does not recover them (block averages), such that
+            # the solver would alter its own coefficients with every cycle.
+            if self.heterogeneous:
+                self.mass_coeff, self.diffusion_coeff, self.smoother = fine_level
 
         # Prolongate correction
         eps = self.prolongation(eps)
 
         # Pad correction if necessary (to account for odd number of grid points)
         pad_tuple = tuple((0, x.shape[i] - eps.shape[i]) for i in range(self.dim))
-        if self.heterogeneous:
-            self.prolongate_parameters(pad_tuple)
         eps = np.lib.pad(
             eps,
             pad_tuple,
